@@ -173,7 +173,9 @@ impl LangInterpreter for French {
             }
             "million" | "millionième" if b.is_range_free(6, 8) => b.shift(6),
             "milliard" | "milliardième" => b.shift(9),
-            "et" if b.len() >= 2 => Err(Error::Incomplete),
+            // "et" only links a ten to "un"/"onze"; after "dix" (where "un" to "six" are blocked
+            // because "onze" to "seize" exist) it can't continue the number
+            "et" if b.len() >= 2 && !blocked.contains(Excludable::DEUX) => Err(Error::Incomplete),
 
             _ => Err(Error::NaN),
         };
